@@ -127,6 +127,42 @@ fn check_roundtrip(c: &RtCase, obs: &mut Obs) -> Result<(), String> {
         Ok(p) => p,
         Err(e) => return Err(format!("printed QASM does not parse: {e}; text: {}", text.replace('\n', " "))),
     };
+    // other public routes to the same objects: the by-name builders, Display, and parsing a file
+    {
+        let mut by_name = Circuit::new(m.n);
+        for (i, g) in m.gates.iter().enumerate() {
+            let name = g.k.gtype().qasm_name();
+            let ph = crate::oracle::diag::to_qphase(g.phase);
+            if g.k.has_phase() || i % 2 == 1 {
+                by_name.add_gate_with_phase(name, g.qs.clone(), ph);
+            } else {
+                by_name.add_gate(name, g.qs.clone());
+            }
+        }
+        if by_name != m.to_quizx_layout(0) {
+            return Err("a circuit built with add_gate / add_gate_with_phase by QASM name differs from the one built from Gate values".into());
+        }
+        // to_qasm is documented as the two header lines followed by Display
+        if by_name.to_qasm() != text || !text.ends_with(&format!("{q}")) || !text.starts_with("OPENQASM 2.0;") {
+            return Err("to_qasm() of the same gate list differs between construction routes, or is not header + Display".into());
+        }
+        for g in q.gates.iter() {
+            if quizx::gate::GType::from_qasm_name(g.qasm_name()) != g.t {
+                return Err(format!("GType::from_qasm_name(qasm_name()) != type for {:?}", g.t));
+            }
+        }
+        if (m.gates.len() + m.n) % 8 == 0 {
+            let path = super::c03::tmp_path("c14");
+            std::fs::write(&path, &text).map_err(|e| format!("harness: {e}"))?;
+            let r = guarded("from_file", || Circuit::from_file(&path.to_string_lossy()));
+            let _ = std::fs::remove_file(&path);
+            match r? {
+                Ok(f) if f == parsed => obs.class("route:file"),
+                Ok(_) => return Err("Circuit::from_file and Circuit::from_qasm parse the same text differently".into()),
+                Err(e) => return Err(format!("Circuit::from_file fails on a text from_qasm accepts: {e}")),
+            }
+        }
+    }
     if m.gates.is_empty() && parsed.num_qubits() != m.n {
         return obs.known(
             "qasm-zero-gates-loses-qubits",
@@ -627,7 +663,7 @@ pub fn def(ctx: &Ctx) -> PropertyDef {
     };
     PropertyDef {
         id: "C14",
-        rule: "(a) circuits over rz/rx/x/z/s/t/sdg/tdg/h/cx/cz/ccx/ccz/swap/xcx/init_anc/post_sel on 1-8 qubits incl. zero gates, phases k/d: from_qasm(to_qasm(c)) must equal c (qubit count, gate kinds, qubit arguments, phases exactly for d<=16; larger d generated, reported and compared to 1e-9). (b) grammar-generated QASM: 1-3 qregs of sizes 1-3, a creg, optional include, comments, a user gate definition, builtin CX, measure, register broadcast, phase spellings k*pi/d, pi*k/d, k/d*pi, (k*pi)/d, pi/d, -pi/d, decimal multiples of pi, radians as decimals, extra full turns, and expressions mixing a radian constant with a multiple of pi (x + k*pi/d, k*pi/d - x, parenthesised, -x + pi/d, 2*(k*pi/2d), k*pi/d + pi/2, -(-k*pi/d), x + y, three-term sums): parsed circuit must equal the expected gate list with register offsets in declaration order (radians to 1e-5 half-turns); texts with barrier / reset / if / U(...) / undefined gate names / syntax and range errors (first or after supported gates) must return Err - no panic, no silently dropped gate. Non-trivial = phase gate with d>=3 together with several registers or a three-qubit gate; error text whose offending construct is not first.",
+        rule: "(a) circuits over rz/rx/x/z/s/t/sdg/tdg/h/cx/cz/ccx/ccz/swap/xcx/init_anc/post_sel on 1-8 qubits incl. zero gates, phases k/d: from_qasm(to_qasm(c)) must equal c; the by-name builders add_gate / add_gate_with_phase, Display and Circuit::from_file must agree with Gate values, to_qasm and from_qasm (qubit count, gate kinds, qubit arguments, phases exactly for d<=16; larger d generated, reported and compared to 1e-9). (b) grammar-generated QASM: 1-3 qregs of sizes 1-3, a creg, optional include, comments, a user gate definition, builtin CX, measure, register broadcast, phase spellings k*pi/d, pi*k/d, k/d*pi, (k*pi)/d, pi/d, -pi/d, decimal multiples of pi, radians as decimals, extra full turns, and expressions mixing a radian constant with a multiple of pi (x + k*pi/d, k*pi/d - x, parenthesised, -x + pi/d, 2*(k*pi/2d), k*pi/d + pi/2, -(-k*pi/d), x + y, three-term sums): parsed circuit must equal the expected gate list with register offsets in declaration order (radians to 1e-5 half-turns); texts with barrier / reset / if / U(...) / undefined gate names / syntax and range errors (first or after supported gates) must return Err - no panic, no silently dropped gate. Non-trivial = phase gate with d>=3 together with several registers or a three-qubit gate; error text whose offending construct is not first.",
         assumptions: vec![
             "expected gate lists are produced by the generator alongside the text (own model of register layout and broadcast order)",
         ],
